@@ -271,7 +271,9 @@ def conelp_cert(pr, sol, opts, truth=None, bounds=None):
             cands.append(gap / -pcost)
         if dcost > 0:
             cands.append(gap / dcost)
-        if not cands:
+        if abs(pcost) <= 4 * gerr or abs(dcost) <= 4 * gerr:
+            f['relgap'] = True       # the sign of an objective that is zero to rounding decides the formula: not judged
+        elif not cands:
             f['relgap'] = rg is None
         else:
             # documented: gap / max(-pcost, dcost); the solver uses -pcost if pcost < 0 else dcost; both accepted
@@ -395,7 +397,9 @@ def coneqp_cert(pr, q, sol, opts, bounds=None):
         cands.append(gap / -pcost)
     if dcost > 0:
         cands.append(gap / dcost)
-    if not cands:
+    if abs(pcost) <= 4 * gerr or abs(dcost) <= 4 * gerr:
+        f['relgap'] = True           # sign of a zero-to-rounding objective decides the formula: not judged
+    elif not cands:
         f['relgap'] = rg is None
     else:
         mden = min(([-pcost] if pcost < 0 else []) + ([dcost] if dcost > 0 else []))
@@ -418,4 +422,113 @@ def coneqp_cert(pr, q, sol, opts, bounds=None):
     else:
         cert['objective_in_bounds'] = True
     det['pres'] = float(math.sqrt(max(resz2 / rz0, resy2 / ry0))); det['dres'] = float(math.sqrt(resx2 / rx0)); det['gap'] = float(gap)
+    return cert, det
+
+
+# ---------------------------------------------------------------------------
+# nonlinear solvers cpl / cp / gp
+# ---------------------------------------------------------------------------
+def cpl_cert(fam, mode, c, pr, sol, opts, first):
+    """fam: function family (harness/nlfam.py) evaluated independently; mode 'cpl' (linear objective c, all functions
+    of fam are constraints) or 'cp' (fam function 0 is the objective, the rest constraints; also used for gp).
+    pr: ConeProblem of the linear part (c ignored for cp)."""
+    feastol, abstol, reltol = Fr(float(opts['feastol'])), Fr(float(opts['abstol'])), Fr(float(opts['reltol']))
+    cert, det = {}, {}
+    n = fam.n
+    nf = len(fam.fs)
+    cons = list(range(first if mode == 'cpl' else 1, nf))          # indices of the constraint functions
+    mnl = len(cons)
+    x = fvec(sol['x'])
+    snl, znl = fvec(sol['snl']), fvec(sol['znl'])
+    sl, zl = fvec(sol['sl']), fvec(sol['zl'])
+    y = fvec(sol['y'])
+    cert['split_ok'] = (len(x) == n and len(snl) == mnl and len(znl) == mnl and len(sl) == pr.cdim and len(zl) == pr.cdim
+                        and len(y) == pr.p)
+    if not cert['split_ok']:
+        return cert, det
+    cert['x_in_domain'] = bool(fam.in_domain(x))
+    if not cert['x_in_domain']:
+        return cert, det
+    w = pr.w
+    x0 = [Fr(v) for v in fam.x0]
+    e = identity(pr.dims)
+    allk = list(range(first if mode == 'cpl' else 0, nf))
+    # documented normalisers at the starting point x0 = F(), s = z = e (cp: epigraph problem, t0 = 0)
+    g0 = [Fr(0)] * n
+    for k in allk:
+        g0 = [a + b for a, b in zip(g0, fam.grad_exact(k, x0))]
+    if mode == 'cpl':
+        g0 = [a + b for a, b in zip(g0, pr.c)]
+    g0 = [a + b for a, b in zip(g0, pr.GTz(e))]
+    dres0 = max(Fr(1), dot(g0, g0))          # squared
+    r0 = [fam.f_exact(k, x0) + 1 for k in allk]
+    r0 += [a + b - c_ for a, b, c_ in zip(pr.Gx(x0), e, pr.h)]
+    rz0w = [1] * len(allk) + list(w)
+    ry0 = [a - b for a, b in zip(pr.Ax(x0), pr.b)]
+    pres0 = max(Fr(1), sdot(r0, r0, rz0w) + dot(ry0, ry0))     # squared
+    solmag = 1 + max([maxabs(v) for v in (x, snl, znl, sl, zl, y)])
+    gmag = 1 + max(maxabs(fam.grad_exact(k, x)) for k in allk)
+    err = 64 * (n + pr.cdim + pr.p + mnl + 4) * U * (pr.mag + gmag) * solmag * gmag + fam.ferr(x)
+    nerr = err * (n + pr.cdim + pr.p + mnl + 1)
+    # stationarity
+    if mode == 'cpl':
+        r = list(pr.c)
+        gobj = Fr(0)
+    else:
+        r = fam.grad_exact(0, x)
+        gobj = Fr(math.sqrt(float(dot(r, r))))
+    for i, k in enumerate(cons):
+        gk = fam.grad_exact(k, x)
+        r = [a + znl[i] * b for a, b in zip(r, gk)]
+    r = [a + b + c_ for a, b, c_ in zip(r, pr.GTz(zl), pr.ATy(y))]
+    resx2 = dot(r, r)
+    lim = feastol * Fr(math.sqrt(float(dres0))) * (1 + gobj) * (1 + Fr(1, 10 ** 6)) + nerr
+    cert['dres_ok'] = resx2 <= lim * lim
+    # primal residual
+    rp = [fam.f_exact(k, x) + snl[i] for i, k in enumerate(cons)]
+    rz = [a + b - c_ for a, b, c_ in zip(pr.Gx(x), sl, pr.h)]
+    ry = [a - b for a, b in zip(pr.Ax(x), pr.b)]
+    resp2 = dot(rp, rp) + sdot(rz, rz, w) + dot(ry, ry)
+    lim = feastol * Fr(math.sqrt(float(pres0))) * (1 + Fr(1, 10 ** 6)) + nerr
+    cert['pres_ok'] = resp2 <= lim * lim
+    tolc = Fr(1, 10 ** 9) * solmag
+    cert['s_in_cone'] = all(v >= -tolc for v in snl) and in_cone(sl, pr.dims, shift=tolc) and _symmetric(sl, pr.dims)
+    cert['z_in_cone'] = all(v >= -tolc for v in znl) and in_cone(zl, pr.dims, shift=tolc) and _symmetric(zl, pr.dims)
+    cert['s_interior'] = all(v > 0 for v in snl) and in_cone(sl, pr.dims, strict=True)
+    cert['z_interior'] = all(v > 0 for v in znl) and in_cone(zl, pr.dims, strict=True)
+    gap = dot(snl, znl) + sdot(sl, zl, w)
+    pobj = dot(pr.c, x) if mode == 'cpl' else fam.f_exact(0, x)
+    gerr = err * solmag * (pr.cdim + mnl + 1)
+    # dual objective (documented): c'x + znl'f(x) + zl'(Gx-h) + y'(Ax-b)
+    Gxh = [a - b for a, b in zip(pr.Gx(x), pr.h)]
+    dobj = pobj + sum(znl[i] * fam.f_exact(k, x) for i, k in enumerate(cons)) + sdot(zl, Gxh, w) + dot(y, ry)
+    slackf = 1 + Fr(1, 1000)
+    ok = gap <= abstol * slackf + gerr
+    if pobj < 0 and gap <= reltol * -pobj * slackf + gerr:
+        ok = True
+    if dobj > 0 and gap <= reltol * dobj * slackf + gerr:
+        ok = True
+    cert['gap_ok'] = ok
+    f = {}
+    if mode == 'cpl':
+        f['pobj'] = close(sol['primal objective'], pobj, gerr)
+        f['dobj'] = close(sol['dual objective'], dobj, gerr + abs(dobj) * Fr(1, 10 ** 9))
+        f['gap'] = close(sol['gap'], gap, gerr)
+        f['pinf'] = sq_close(sol['primal infeasibility'], resp2 / pres0, nerr)
+        f['dinf'] = sq_close(sol['dual infeasibility'], resx2 / dres0, nerr)
+    else:
+        # cp / gp copy the accuracy fields of the epigraph problem: t is not returned, so only a weak comparison
+        t4 = max(Fr(1, 10 ** 4), 100 * max(feastol, abstol, reltol))
+        if sol['status'] == 'optimal':
+            f['pobj'] = abs(Fr(float(sol['primal objective'])) - pobj) <= t4 * (1 + abs(pobj))
+        # the epigraph gap contains the extra term snl[0]*znl[0] >= 0
+        f['gap'] = Fr(float(sol['gap'])) + gerr >= gap - gerr
+    cert['fields_ok'] = all(f.values())
+    det['fields'] = {k: v for k, v in f.items() if not v}
+    t5 = Fr(1, 10 ** 5)
+    cert['near_1e5'] = resp2 <= t5 * t5 * pres0 and resx2 <= (t5 * (1 + gobj)) ** 2 * dres0 and (
+        gap <= t5 or (pobj < 0 and gap <= t5 * -pobj) or (dobj > 0 and gap <= t5 * dobj))
+    cert['objective_in_bounds'] = True
+    det['pres'] = float(math.sqrt(resp2 / pres0)); det['dres'] = float(math.sqrt(resx2 / dres0)); det['gap'] = float(gap)
+    det['pobj'] = float(pobj)
     return cert, det
